@@ -33,12 +33,15 @@ ASSUMPTIONS = ["a value within one unit of the element's resolution of the exact
                "DENM eventPosition elements missing from the triggering report may keep the value of an earlier trigger (shared service state)",
                "generation time = the report's own timestamp; reconstruction is demanded for 0 <= receiver clock - generation time < 65 s, "
                "a receiver clock behind the generation time is reported under its own key",
-               "liveness is C10's max gap (CAM 1 s + check period, VAM 5 s + report period) while position reports keep arriving"]
+               "liveness is C10's max gap (CAM 1 s + check period, VAM 5 s + report period) while position reports keep arriving",
+               "CAM pathHistory: every point must be the position of an earlier CAM of the same activation (+-2 units of 1e-7 deg) with the "
+               "matching pathDeltaTime (+-1 unit of 10 ms); number of points, subsampling and the reference of a delta (CAM position or "
+               "previous path point) are left to the implementation (probes)"]
 EXPECTED_PROBES = ["cam", "vam", "denm", "denm:eva", "denm:rhs", "denm:crw", "rx:cam", "rx:vam", "rx-age>1s", "rx-skew-positive", "rx-skew-negative",
                    "gdt-wrap-between-tx-and-rx", "edge:lat=+-90", "edge:lon=+-180", "edge:alt>=8000", "edge:alt<=-1000", "edge:speed>=163.82",
                    "edge:track=360.0", "edge:epx>=40.94", "edge:epd>12.5", "edge:epd<0.1", "edge:epv>200", "edge:epv-bucket-edge",
                    "edge:alt-6130-8000", "cam:lf", "cam:special", "cam:two-wheeler", "vam:lf", "vam:cluster-op", "vbs:idle", "element-checked",
-                   "station-type-nondefault", "role-nondefault", "rx-through-real-stack"] + ["fields:" + c for c in fs.FIELD_CLASSES]
+                   "station-type-nondefault", "role-nondefault", "rx-through-real-stack", "pathhistory-judged"] + ["fields:" + c for c in fs.FIELD_CLASSES]
 
 fs.warm(["cam", "vam", "denm"])
 
@@ -458,6 +461,9 @@ def _judge_cam(sim, m, rep, rel):
             d = pp["pathPosition"]
             if not (-131071 <= d["deltaLatitude"] <= 131072 and -131071 <= d["deltaLongitude"] <= 131072):
                 sim.violate(ID, "field-differs", "CAM/pathHistory.pathPosition", f"path point {d} outside the delta range", m["t"])
+        ph = _judge_path_history(sim, m, rep, lf["pathHistory"], rel)
+        if ph:
+            flags.append(ph)
     if "specialVehicleContainer" in par:
         sim.probe("cam:special")
         cont.append("SV")
@@ -472,6 +478,130 @@ def _judge_cam(sim, m, rep, rel):
         elif x["containerId"] == 3:
             cont.append("VLF")
     return ("CAM", "+".join(cont), ",".join(f for f in flags if f))
+
+
+# ---- content of the low-frequency container's pathHistory ------------------------------------------------------------------
+PH_POS_TOL = 2            # units of 1e-7 degree (resolution of DeltaLatitude / DeltaLongitude: 1; float scaling + rounding)
+PH_TIME_TOL = 1           # units of 10 ms (resolution of PathDeltaTime; the service subtracts floor(ms) clock readings)
+PH_WINDOW = 64            # candidates searched for a point that carries no pathDeltaTime
+
+
+def _judge_path_history(sim, m, rep, path, rel) -> str:
+    """Every path point must be an earlier position of the station, expressed to the resolution of its data elements.
+
+    Reference = the CAMs handed to BTP earlier in the same activation (newest first) together with the reports they were built
+    from.  What the implementation is free to choose is not judged: how many points it keeps, which earlier CAMs it keeps (any
+    subsequence in newest-first order is accepted, probe `pathhistory-subsampled`), and whether a point is expressed relative to
+    the CAM's reference position (what the service does) or to the previous path point (what the Path DF of TS 102 894-2 says) -
+    both conventions are accepted per point (probes `pathhistory-convention:*`).  Judged: sign and magnitude of deltaLatitude /
+    deltaLongitude (+-2 units), pathDeltaTime (+-1 unit of 10 ms, saturating at 65534/65535), and that there are not more points
+    than earlier CAMs."""
+    act = m.get("act")
+    if not path:
+        if act is not None and any(c["e"]["pos"] < m["e"]["pos"] for c in act["cams"]):
+            sim.probe("pathhistory-empty-with-predecessors")
+        return ""
+    if act is None or rep is None or not fs.is_position_report(rep["tpv"]):
+        sim.probe("pathhistory-no-verdict:no-reference")
+        return ""
+    if m.get("garbage") or m.get("overflow"):
+        sim.probe("pathhistory-no-verdict:collateral")      # a wrapped element elsewhere in this CAM may have spilled into the container
+        return ""
+    cur = rep["tpv"]
+    cands = [c for c in reversed(act["cams"]) if c["e"]["pos"] < m["e"]["pos"] and c.get("latest") is not None
+             and fs.is_position_report(c["latest"]["tpv"])]
+    sim.probe("pathhistory-judged")
+
+    def delta(a, b):
+        return round((a - b) * 10_000_000)
+
+    def time_ok(pdt, dt_us):
+        exp = dt_us / 10_000
+        if exp >= 65534 - PH_TIME_TOL:
+            return pdt >= 65534 - PH_TIME_TOL
+        return abs(pdt - max(1.0, exp)) <= PH_TIME_TOL + 1e-9
+
+    k_prev = -1
+    prev_lat, prev_lon, prev_t = cur["lat"], cur["lon"], m["t"]
+    cum_pdt = 0
+    for j, pp in enumerate(path):
+        d = pp["pathPosition"]
+        pdt = pp.get("pathDeltaTime")
+        if pdt is not None:
+            cum_pdt += pdt
+        saturated = pdt is not None and pdt >= 65534 - PH_TIME_TOL
+        horizon_us = None if (pdt is None or saturated) else (max(pdt, cum_pdt) + j + 2 + PH_TIME_TOL) * 10_000
+        found = None
+        pos_only = None
+        scanned = 0
+        for k in range(k_prev + 1, len(cands)):
+            c = cands[k]
+            age = m["t"] - c["t"]
+            if horizon_us is not None and age > horizon_us:
+                break
+            if pdt is None and scanned >= PH_WINDOW:
+                break
+            scanned += 1
+            t = c["latest"]["tpv"]
+            abs_ok = abs(d["deltaLatitude"] - delta(t["lat"], cur["lat"])) <= PH_POS_TOL and \
+                abs(d["deltaLongitude"] - delta(t["lon"], cur["lon"])) <= PH_POS_TOL
+            ch_ok = abs(d["deltaLatitude"] - delta(t["lat"], prev_lat)) <= PH_POS_TOL and \
+                abs(d["deltaLongitude"] - delta(t["lon"], prev_lon)) <= PH_POS_TOL
+            if not (abs_ok or ch_ok):
+                continue
+            if pos_only is None:
+                pos_only = (k, c)
+            if pdt is None:
+                found = (k, c, "absolute" if abs_ok else "chained")
+                sim.probe("pathhistory-point-without-time")
+                break
+            if abs_ok and time_ok(pdt, age):
+                found = (k, c, "absolute")
+                break
+            if ch_ok and time_ok(pdt, prev_t - c["t"]):
+                found = (k, c, "chained")
+                break
+        if found is not None:
+            k, c, conv = found
+            if j > 0:
+                sim.probe("pathhistory-convention:" + conv)
+            if k != k_prev + 1:
+                sim.probe("pathhistory-subsampled")
+            k_prev = k
+            prev_lat, prev_lon, prev_t = c["latest"]["tpv"]["lat"], c["latest"]["tpv"]["lon"], c["t"]
+            sim.probe("element-checked", 3)
+            continue
+        where = f"CAM at {rel(m['t'])}: path point {j} of {len(path)} = {dict(d, pathDeltaTime=pdt)}"
+        if pos_only is not None:
+            k, c = pos_only
+            sim.violate(ID, "field-differs", "CAM/pathHistory.pathDeltaTime",
+                        f"{where} lies at the position of the CAM sent {(m['t'] - c['t']) / 1000:.1f} ms earlier (report #{c['latest']['i']}), "
+                        f"pathDeltaTime {pdt} x 10 ms does not say so (expected {max(1, round((m['t'] - c['t']) / 10_000))}"
+                        + (f", or {max(1, round((prev_t - c['t']) / 10_000))} relative to the previous point" if j else "") + ")", m["t"])
+            return "!pathDeltaTime"
+        if k_prev + 1 >= len(cands):
+            sim.violate(ID, "field-differs", "CAM/pathHistory.length",
+                        f"{where}: only {len(cands)} CAM(s) with a position were sent earlier in this activation, the path has {len(path)} points", m["t"])
+            return "!pathLength"
+        c = cands[k_prev + 1]
+        t = c["latest"]["tpv"]
+        e_lat, e_lon = delta(t["lat"], cur["lat"]), delta(t["lon"], cur["lon"])
+        lat_bad = abs(d["deltaLatitude"] - e_lat) > PH_POS_TOL and abs(d["deltaLatitude"] - delta(t["lat"], prev_lat)) > PH_POS_TOL
+        elem = "deltaLatitude" if lat_bad else "deltaLongitude"
+        sim.violate(ID, "field-differs", "CAM/pathHistory." + elem,
+                    f"{where} is not the position of any earlier CAM of this activation; the next older CAM (sent {(m['t'] - c['t']) / 1000:.1f} ms "
+                    f"earlier, report #{c['latest']['i']}: lat={t['lat']}, lon={t['lon']}) lies at deltaLatitude {e_lat}, deltaLongitude {e_lon} "
+                    f"from this CAM's position (lat={cur['lat']}, lon={cur['lon']})", m["t"])
+        return "!" + elem
+    n_in_range = 0
+    for c in cands:
+        t = c["latest"]["tpv"]
+        if not (-131071 <= delta(t["lat"], cur["lat"]) <= 131072 and -131071 <= delta(t["lon"], cur["lon"]) <= 131072):
+            break
+        n_in_range += 1
+    if len(path) < min(23, n_in_range):
+        sim.probe("pathhistory-shorter-than-available")
+    return ""
 
 
 def _judge_vam(sim, m, rep, rel):
